@@ -12,9 +12,11 @@ import (
 	"fmt"
 	"runtime/debug"
 	"sort"
+	"strings"
 	"sync"
 
 	"github.com/go-openapi/loads"
+	"github.com/go-openapi/runtime/security"
 
 	"verif/engine/enum"
 	"verif/engine/report"
@@ -226,6 +228,9 @@ func main() {
 		var c Case
 		r.LoadReplay(&c)
 		var class, what, label, observed string
+		if name, ok := strings.CutPrefix(c.Sweep, "default-realm:"); ok {
+			security.DefaultRealmName = name
+		}
 		if c.Sweep == "seq" {
 			class, what, label, observed = checkSeq(c)
 		} else {
@@ -257,6 +262,8 @@ func main() {
 		}
 		return out
 	}
+
+	defaultRealmSweep(r, done)
 
 	// ---- sweep "main": full product ----
 	// A shard is one API description (produces list x where it is declared); the four
@@ -431,7 +438,7 @@ func main() {
 		"accept":       renderAll(authAccepts),
 		"outcomes":     authOutcomes,
 		"shapes":       authShapes,
-		"entry_points": []string{"untyped", "typed"},
+		"entry_points": []string{"untyped", "typed", "routable"},
 	})
 	authResponses := [][]string{{"200"}}
 	enum.Parallel(len(keysAuth), r.OutOfTime, func(i int) {
@@ -441,7 +448,7 @@ func main() {
 			e := buildEnvWith(Config{Mode: mode, Produces: k.produces, Where: "op", Responses: authResponses, AuthCtor: k.ctor, AuthRealm: k.realm}, doc, regs)
 			st := &shardStats{outcomes: map[string]int64{}}
 			c := Case{Sweep: "auth", Mode: mode, Produces: k.produces, Where: "op", Responses: []string{"200"}}
-			for _, via := range []string{"untyped", "typed"} {
+			for _, via := range []string{"untyped", "typed", "routable"} {
 				c.Via = via
 				for _, cr := range creds {
 					c.Auth = &Auth{Ctor: k.ctor, Realm: k.realm, Creds: cr}
@@ -462,6 +469,7 @@ func main() {
 	})
 
 	altSweep(r, done)
+	surfaceSweep(r, done, outcomes, accepts)
 	seqSweep(r, done)
 
 	for _, k := range sortedKeys(total) {
@@ -492,7 +500,7 @@ func main() {
 		"recording producers never fail; Accept headers are well-formed, parameter-free and use q in tenths (C07 owns the rest); produces entries are lower case",
 		"typed entry point = the call sequence of a go-swagger generated handler (RouteInfo, Authorize, BindValidRequest, Respond) written in the harness",
 	)
-	r.Finish("every element of the stated products (sweeps main, deep-accept [thorough], auth, auth-alts) is served once by the real Context (APIHandler, or the typed call sequence ending in Context.Respond) and judged by the reference; sweep seq: every ordered pair (thorough: also every ordered triple over a smaller alphabet) of steps (operation x handler outcome x Accept x entry point) over a description whose operations have no / a duplicated / a distinct operationId and declare different success codes and produces lists is served by ONE fresh Context, plus one walk per description that passes through every ordered pair on a single Context; every step is judged by the reference AND must give exactly the observation (status, headers, body, producer / Responder / error-responder calls) the same step gives as the first request of a fresh instance; one evaluation = one request; non-trivial = at least one MUST clause of the property applied to the case (its situation label does not start with 'may/') or, in sweep seq, the request was not the first one of its Context (cases are distinct by construction: the enumerator never repeats a (configuration, request, outcome, entry point) tuple nor a sequence)", true)
+	r.Finish("every element of the stated products (sweeps main, deep-accept [thorough], auth, auth-alts, surface, default-realm) is served once by the real Context (APIHandler of the untyped API; the typed call sequence ending in Context.Respond; sweep surface: the same call sequence behind a hand-written RoutableAPI served by NewRoutableContext, Context.Respond called directly without a matched route, Context.NotFound) and judged by the reference; sweep seq: every ordered pair (thorough: also every ordered triple over a smaller alphabet) of steps (operation x handler outcome x Accept x entry point) over a description whose operations have no / a duplicated / a distinct operationId and declare different success codes and produces lists is served by ONE fresh Context, plus one walk per description that passes through every ordered pair on a single Context; every step is judged by the reference AND must give exactly the observation (status, headers, body, producer / Responder / error-responder calls) the same step gives as the first request of a fresh instance; one evaluation = one request; non-trivial = at least one MUST clause of the property applied to the case (its situation label does not start with 'may/') or, in sweep seq, the request was not the first one of its Context (cases are distinct by construction: the enumerator never repeats a (configuration, request, outcome, entry point) tuple nor a sequence)", true)
 }
 
 func countAscending(ls [][]int) int {
@@ -794,7 +802,7 @@ func altSweep(r *report.R, done func(*shardStats, int)) {
 		"accept":             renderAll(accepts),
 		"shapes":             shapes,
 		"outcomes":           outcomes,
-		"entry_points":       []string{"untyped", "typed"},
+		"entry_points":       []string{"untyped", "typed", "routable"},
 		"oracle":             "handler did not run: error responder invoked once; when some alternative returned an error, with one of those errors (identity); Basic challenge naming the realm when the basic alternative rejected credentials",
 	})
 	type key struct {
@@ -826,7 +834,7 @@ func altSweep(r *report.R, done func(*shardStats, int)) {
 					ss[j] = states[x]
 				}
 				c.Auth = &Auth{Ctor: k.ctor, Realm: "custom", Alts: k.alts, States: ss}
-				for _, via := range []string{"untyped", "typed"} {
+				for _, via := range []string{"untyped", "typed", "routable"} {
 					c.Via = via
 					for _, acc := range accepts {
 						c.NoAccept, c.Accept = acc == nil, acc
@@ -843,4 +851,123 @@ func altSweep(r *report.R, done func(*shardStats, int)) {
 			done(st, 250000+i)
 		}
 	})
+}
+
+// ---- sweep "surface": the other exported ways to the same behaviour ----
+//
+//	direct    Context.Respond(rw, r, produces, route, data) called without a matched route:
+//	          route nil, route without Operation, and nil route on a request whose context
+//	          carries the format Context.ResponseFormat negotiated (the cached-format path)
+//	notfound  Context.NotFound
+//	routable  the description served by middleware.NewRoutableContext over a hand-written
+//	          RoutableAPI (HandlerFor / ServeErrorFor / ProducersFor ... as generated servers
+//	          implement them), operation handlers running the typed call sequence
+//
+// All judged by the same reference; without an operation there is no declared success
+// status, so the status of a direct call is MAY.
+func surfaceSweep(r *report.R, done func(*shardStats, int), outcomes []string, accepts [][]Range) {
+	ls := lists(len(producesAlphabet), 2)
+	directs := []string{"nil-route", "empty-route", "nil-route+cached-format"}
+	directMethods := []string{"GET", "HEAD", "POST"}
+	r.Set("axes_surface", map[string]any{
+		"produces_lists":      fmt.Sprintf("every ordered list of 0..2 entries (%d) for direct and notfound; the %d lists of 0..1 entries for routable", len(ls), 1+len(producesAlphabet)),
+		"modes":               modes,
+		"direct_variants":     directs,
+		"direct_methods":      directMethods,
+		"accept_headers":      renderAll(accepts),
+		"handler_outcomes":    outcomes,
+		"routable_responses":  responseSets,
+		"routable_shapes":     opShapes,
+		"routable_stage_fail": stageShapes,
+	})
+	enum.Parallel(len(ls), r.OutOfTime, func(i int) {
+		produces := make([]string, len(ls[i]))
+		for j, x := range ls[i] {
+			produces[j] = producesAlphabet[x]
+		}
+		doc, regs := loadDoc(Config{Produces: produces, Where: "op", Responses: responseSets})
+		for _, mode := range modes {
+			e := buildEnvWith(Config{Mode: mode, Produces: produces, Where: "op", Responses: responseSets, NoDocs: true}, doc, regs)
+			st := &shardStats{outcomes: map[string]int64{}}
+			c := Case{Sweep: "surface", Mode: mode, Produces: produces, Where: "op", Responses: responseSets[0], Target: "op"}
+			for _, acc := range accepts {
+				c.NoAccept, c.Accept = acc == nil, acc
+				c.Via = "direct"
+				for _, d := range directs {
+					c.Direct = d
+					for _, m := range directMethods {
+						c.Method = m
+						for _, oc := range outcomes {
+							c.Outcome = oc
+							st.run(r, e, &c)
+						}
+					}
+				}
+				c.Direct, c.Via, c.Outcome = "", "notfound", "string"
+				for _, m := range []string{"GET", "HEAD"} {
+					c.Method = m
+					st.run(r, e, &c)
+				}
+				if len(produces) <= 1 {
+					c.Via = "routable"
+					for _, rs := range responseSets {
+						c.Responses = rs
+						for _, sh := range opShapes {
+							c.Method, c.Body, c.Target = sh.Method, sh.Body, sh.Target
+							for _, oc := range outcomes {
+								c.Outcome = oc
+								st.run(r, e, &c)
+							}
+						}
+					}
+					c.Responses, c.Outcome = responseSets[0], "string"
+					for _, sh := range stageShapes {
+						c.Method, c.Body, c.Target = sh.Method, sh.Body, sh.Target
+						st.run(r, e, &c)
+					}
+					c.Body, c.Target = "", "op"
+				}
+			}
+			done(st, 260000+i)
+		}
+	})
+}
+
+// ---- sweep "default-realm": the package variable security.DefaultRealmName ----
+//
+// Runs alone, before every other sweep (the variable is process wide): with the variable
+// set to another name, authenticators built without a realm of their own must challenge
+// with that name. The requests are served while the variable still has the value the
+// authenticators were built under, so the oracle does not depend on when it is read.
+func defaultRealmSweep(r *report.R, done func(*shardStats, int)) {
+	names := []string{"Other realm", `quo"ted`}
+	r.Set("axes_default_realm", map[string]any{
+		"DefaultRealmName": names,
+		"constructors":     []string{"BasicAuth", "BasicAuthCtx", `BasicAuthRealm("")`, `BasicAuthRealmCtx("")`},
+		"credentials":      []string{"none", "wrong", "right"},
+		"entry_points":     []string{"untyped", "typed", "routable"},
+	})
+	old := security.DefaultRealmName
+	defer func() { security.DefaultRealmName = old }()
+	produces := []string{mtText}
+	resp := [][]string{{"200"}}
+	st := &shardStats{outcomes: map[string]int64{}}
+	for _, name := range names {
+		security.DefaultRealmName = name
+		for _, ctor := range []string{"BasicAuth", "BasicAuthCtx", "BasicAuthRealm", "BasicAuthRealmCtx"} {
+			e := buildEnv(Config{Mode: "json", Produces: produces, Where: "op", Responses: resp, AuthCtor: ctor})
+			c := Case{Sweep: "default-realm:" + name, Mode: "json", Produces: produces, Where: "op", Responses: resp[0], Target: "op", NoAccept: true, Outcome: "string"}
+			for _, via := range []string{"untyped", "typed", "routable"} {
+				c.Via = via
+				for _, cr := range []string{"none", "wrong", "right"} {
+					c.Auth = &Auth{Ctor: ctor, Creds: cr}
+					for _, m := range []string{"GET", "HEAD"} {
+						c.Method = m
+						st.run(r, e, &c)
+					}
+				}
+			}
+		}
+	}
+	done(st, 240000)
 }
